@@ -2,6 +2,7 @@ import G3D.Proofs.Algebra
 import G3D.Props.C01
 import G3D.Props.C02
 import G3D.Proofs.AlgebraB
+import G3D.Proofs.BodySoundSets
 /-! # C12 — intersection obeys the algebra of set intersection  (full for flats; partial for bodies)
     For flats everything follows from C01 because flats are closed under `intersection`.  For polygons the
     "vertices in both" clause follows from C02's exactness; self-intersection / subset / associativity for
@@ -57,4 +58,14 @@ theorem assoc_flat_inter (a b c : Geo) (ha : a.WF) (hb : b.WF) (hc : c.WF) :
 theorem chain_flat_flat_polygon (a b : Geo) (ha : a.WF) (hb : b.WF) (P : Polygon) (hv : P.Valid) :
     ∃ ab l, inter (.flat a) (.flat b) = .ok ab ∧ interOpt ab (some (.polygon P)) = .ok l ∧
       ∀ x, denOptB l x ↔ (a.den x ∧ b.den x ∧ InHull P.pts x) := inter_flat_flat_polygon_left a b ha hb P hv
+
+/-! ### result ⊆ a ∩ b for ALL 49 type pairs (polyhedra denoted by their membership test) -/
+/-- every vertex / end point of `intersection(a, b)` lies in both operands, for well-formed flats, Valid polygons and
+    Good polyhedra (faces Valid, vertices inside every face half-space, centres in their planes) -/
+theorem result_vertices_in_both (a b : Obj) (ha : OpWF a) (hb : OpWF b) (r : Obj) (h : inter a b = .ok (some r)) :
+    ∀ v ∈ resVerts (some r), OpDen a v ∧ OpDen b v := inter_result_vertices_in_both a b ha hb r h
+/-- … and so does every point of the result (hull of the result's vertices) -/
+theorem result_subset_both (a b : Obj) (ha : OpWF a) (hb : OpWF b) (o : Option Obj) (h : inter a b = .ok o) :
+    ∀ x, denOptB o x → OpDen a x ∧ OpDen b x := inter_result_subset a b ha hb o h
+
 end G3D.Props.C12
